@@ -247,9 +247,9 @@ func (a *Agent) UpdatePeers(ctx context.Context, p pool.Pool) error {
 			lookup[uri.ID()] = uri.RemoteHost()
 		}
 
-		// Mark any non-active peers as invalid. These should be a superset of
-		// the original update.InvalidPeers, so we truncate it first.
-		update.InvalidPeers = update.InvalidPeers[:0]
+		// Mark any non-active peers as invalid, in addition to the peers the
+		// pool declared invalid (which need not be connected right now, but
+		// still have to lose their trusted status).
 		for _, p := range peers {
 			uri, err := ethnode.ParseNodeURI(p.EnodeURI())
 			if err != nil {
@@ -267,6 +267,7 @@ func (a *Agent) UpdatePeers(ctx context.Context, p pool.Pool) error {
 
 	// Disconnect from invalid peers
 	var errors []error
+	seen := make(map[string]struct{}, len(update.InvalidPeers))
 	for _, p := range update.InvalidPeers {
 		peerID := p
 		if uri, err := ethnode.ParseNodeURI(p); err != nil {
@@ -274,6 +275,10 @@ func (a *Agent) UpdatePeers(ctx context.Context, p pool.Pool) error {
 		} else {
 			peerID = uri.ID()
 		}
+		if _, ok := seen[peerID]; ok {
+			continue // Already handled (listed by the pool and mismatched locally)
+		}
+		seen[peerID] = struct{}{}
 		if err := a.EthNode.RemoveTrustedPeer(ctx, peerID); err != nil {
 			errors = append(errors, err)
 		}
